@@ -762,6 +762,19 @@ func (w *world) reportUndelivered(q *req, why string) {
 		// everything obtainable was delivered, yet the channel never closed
 		class = "never-closes/" + q.kind
 	}
+	// is every missing key also wanted by another request of the same node?
+	sharedAll := len(miss) > 0
+	for _, x := range miss {
+		sh := false
+		for _, o := range w.reqs {
+			if o != q && o.node == q.node {
+				for _, y := range o.keys {
+					sh = sh || y == x
+				}
+			}
+		}
+		sharedAll = sharedAll && sh
+	}
 	rc := w.recvCounts(q.node, miss)
 	allArrived := len(rc) > 0
 	for _, n := range rc {
@@ -774,6 +787,10 @@ func (w *world) reportUndelivered(q *req, why string) {
 	case len(trigRe) > 0:
 		// a sibling fetch of the same session received the key; this one asked again
 		class = "not-delivered/same-session-rerequest"
+	case allArrived && sharedAll && !w.missingAllDropped():
+		// every missing block reached this node once (for another request of the
+		// node), the want is still listed, but no peer is going to answer it again
+		class = "not-delivered/stale-sent-want"
 	case allArrived && w.missingAllDropped():
 		// every missing block reached this node from the network (tracer), yet
 		// the open request did not get it and the node no longer wants it
@@ -909,8 +926,14 @@ func (w *world) checkCleanup(phase string, already map[string]bool, closeSession
 	last, m := leftover()
 	lastChange, samples := time.Now(), 1
 	first := last
-	for last != "" {
-		if time.Since(lastChange) >= cleanupStable && samples >= 5 {
+	for {
+		if last == "" {
+			// clean: accept only after >= 5 consecutive clean samples spanning
+			// >= 150 ms, so a want that is re-added late is still seen
+			if samples >= 5 && time.Since(lastChange) >= 150*time.Millisecond {
+				break
+			}
+		} else if time.Since(lastChange) >= cleanupStable && samples >= 5 {
 			break
 		}
 		if time.Since(start) > 60*time.Second {
@@ -1029,7 +1052,10 @@ func (w *world) checkCleanup(phase string, already map[string]bool, closeSession
 				class = "want-not-cleared/orphan-after-receipt"
 			case deliveredSomewhere:
 				class = "want-not-cleared/delivered-locally"
+			case undeliveredCancelled && released[fmt.Sprint(node, "/", c.KeyString())]:
+				class = "want-not-cleared/after-cancel/held-until-session-close"
 			case undeliveredCancelled:
+				// orphan: survives the end of every request and session
 				class = "want-not-cleared/after-cancel"
 				for sid, nw := range sessWanters {
 					if nw >= 2 && sessCancelled[sid] {
